@@ -73,6 +73,12 @@ func runC09(c *Ctx) {
 	R.Rule("C09.R2", "push/pop conditions: a push happens only in the StartTag arm, pushes token.Data, on an edge whose path condition implies 'no attribute survived ∧ ¬allowNoAttrs(token.Data)'; a pop happens only in the EndTag arm under flag ∧ token.Data == top of stack; no tag write is reachable after a push or a pop in the same iteration")
 	R.Rule("C09.R3", "every drop has a tabled reason: a StartTag/SelfClosingTag iteration that writes no tag is disallowed, gated, dropped for lack of attributes, or inside skipped content; an EndTag iteration that writes no tag is disallowed, gated, popped, or inside skipped content — the same admission predicate (element table ∨ element pattern) in both arms")
 	R.Rule("C09.R4", "pushes are matchable: the push edge is reached only for elements that can have an end tag (a void-element test on token.Data guards it)")
+	noPolicyCopies(c, "C09.R8", "a builder call on the other policy between a start tag and its end tag changes the skip set under the document and unbalances the skip counter")
+	R.Rule("C09.R8", "the skip set a document is judged by cannot change under it (= C08.R6, cited): each policy owns a freshly made skip set — with a shared one, a builder call on another policy between a start tag and its end tag unbalances the skip counter")
+	if F8 := model.FindFields(c.P); F8 != nil {
+		skipField := F8.Get("skipSet")
+		freshTables(c, "C09.R8", func(f string) bool { return f == skipField }, 1)
+	}
 	R.Rule("C09.R7", "the start-tag and end-tag arms agree on admission by pattern: matchRegex's match flag is sticky (only ever set to true inside the scan), like the end-tag arm's own scan")
 	matchedIsSticky(c, "C09.R7")
 	R.Rule("C09.R6", "frames, not names: an end tag is matched with the dropped start tag it belongs to — the arm handling start tags consults the top of the pending-close stack, so that same-name elements that are not pushed between a push and its pop can be told apart from the pushed one")
